@@ -551,11 +551,17 @@ func (e *CoreExtension) functionRange(args ...interface{}) (interface{}, error) 
 		// For positive step, include the end value (end is inclusive)
 		for i := start; i <= end; i += step {
 			result = append(result, i)
+			if i > math.MaxInt-step {
+				break // the next value is beyond the largest int, so beyond end
+			}
 		}
 	} else {
 		// For negative step, include the end value (end is inclusive)
 		for i := start; i >= end; i += step {
 			result = append(result, i)
+			if i < math.MinInt-step {
+				break // the next value is below the smallest int, so below end
+			}
 		}
 	}
 
